@@ -6,7 +6,7 @@ import json
 import random
 
 import tv
-from common import NCPU, MachineryError, cached, drive, run_parallel, tagged_lines, tlc, tlc_ok, tlc_violation
+from common import NCPU, NSHARDS, shard_hashseed, MachineryError, cached, drive, run_parallel, tagged_lines, tlc, tlc_ok, tlc_violation
 
 
 def _cfg(wd, nn, atoms, depth, check, emit) -> str:
@@ -27,7 +27,7 @@ def mc(wd, nn=3, atoms="full", depth=1):
         tlc_ok(r, "ExprCalc MC")
         return {"generated": r["generated"], "distinct": r["distinct"], "invariants": ["RefRewritesSound", "CondNormalised"],
                 "atoms": atoms, "depth": depth}
-    return cached(f"ec-mc-{nn}-{atoms}-{depth}", go)
+    return cached(f"ec-mc-{nn}-{atoms}-{depth}", go, module="ExprCalc")
 
 
 def gen(wd, nn=3, atoms="full", depth=1):
@@ -38,7 +38,7 @@ def gen(wd, nn=3, atoms="full", depth=1):
         ts = tagged_lines(r["out"], "CALC")
         ts.sort(key=lambda t: json.dumps(t, sort_keys=True))
         return {"terms": ts, "generated": r["generated"], "distinct": r["distinct"]}
-    return cached(f"ec-gen-{nn}-{atoms}-{depth}", go)
+    return cached(f"ec-gen-{nn}-{atoms}-{depth}", go, module="ExprCalc")
 
 
 def sim(wd, nn, atoms, depth, num, tlc_seed, cap=40000):
@@ -65,17 +65,17 @@ def calc_group(nn: int, recs: list) -> dict:
             "pops": [{"tag": [1] * nn}, {"tag": [2] * nn}], "recs": recs}
 
 
-def run_y0(wd, terms: list[dict], tag: str, hashseed="0") -> tuple[list, dict]:
-    shards = [terms[i::NCPU] for i in range(NCPU)]
+def run_y0(wd, terms: list[dict], tag: str, hashseed=None) -> tuple[list, dict]:
+    shards = [terms[i::NSHARDS] for i in range(NSHARDS)]
     jobs = []
     for i, sh in enumerate(shards):
         if sh:
             f = wd / f"{tag}-in{i}.json"
             f.write_text(json.dumps(sh))
-            jobs.append((f, wd / f"{tag}-out{i}.json"))
+            jobs.append((f, wd / f"{tag}-out{i}.json", i))
 
     def one(job):
-        drive("drive_expr.py", [str(job[0]), str(job[1])], hashseed=hashseed)
+        drive("drive_expr.py", [str(job[0]), str(job[1])], hashseed=hashseed or shard_hashseed(job[2]))
         return json.loads(job[1].read_text())
 
     recs, stats = [], {}
